@@ -3,6 +3,7 @@
 #  1. confirm in the scratch worktree: with the patch the test-suite passes and demo.py exits 1; without it demo.py exits 0
 #  2. copy patch.diff / demo.py / meta.json to /verif/seeded/<seed-id>/
 #  3. apply the patch to /repo, run the property's check (quick), undo the patch straight afterwards
+VROOT=$(cd "$(dirname "$0")/.." && pwd)
 WT=$1; ID=$2
 SRC=$WT/seeded/$ID
 PROP=$(python3 -c "import json;print(json.load(open('$SRC/meta.json'))['property'])")
@@ -14,17 +15,17 @@ timeout 300 /venv/bin/python seeded/$ID/demo.py >/dev/null 2>&1; D1=$?
 git checkout -q -- hexital
 timeout 300 /venv/bin/python seeded/$ID/demo.py >/dev/null 2>&1; D0=$?
 echo "$ID [$PROP] tests: $T | demo with patch exit=$D1 | demo without patch exit=$D0"
-mkdir -p /verif/seeded/$ID
-cp $SRC/patch.diff $SRC/demo.py $SRC/meta.json /verif/seeded/$ID/
-cd /verif
-git -C /repo apply /verif/seeded/$ID/patch.diff || { echo "$ID: patch does not apply to /repo"; exit 9; }
+mkdir -p $VROOT/seeded/$ID
+cp $SRC/patch.diff $SRC/demo.py $SRC/meta.json $VROOT/seeded/$ID/
+cd $VROOT
+git -C /repo apply $VROOT/seeded/$ID/patch.diff || { echo "$ID: patch does not apply to /repo"; exit 9; }
 OUT=$(timeout 3000 ./check $PROP 2>&1); RC=$?
 git -C /repo checkout -q -- .
 echo "$OUT" | grep -E "refuted obligation|bounded stand-in|VIOLATION|^$PROP:" | cut -c1-170 | head -3
 echo "$ID => check $PROP exit=$RC"
 python3 - <<PY
 import json
-p='/verif/seeded/$ID/meta.json'
+p='$VROOT/seeded/$ID/meta.json'
 m=json.load(open(p))
 m['confirmed']={'tests_with_patch':'''$T''','demo_with_patch_exit':$D1,'demo_without_patch_exit':$D0,'ran':'tools/seeded.sh: pytest + demo.py in a scratch worktree, then ./check $PROP on /repo with the patch applied'}
 m['check_exit']=$RC
